@@ -143,6 +143,32 @@ func runC19(c *Ctx) {
 			c.Observe("lit-unmodelled "+hexs(u), false)
 		}
 		c.Count("lit:" + strings.SplitN(out, ":", 2)[0])
+		// the identity of the untyped reference with this URI is the identity the literal parse finds: the one
+		// succeeds exactly when the other finds a resource identity, with the same type, id and version
+		if !pan {
+			var idn *resource.Identity
+			var ierr error
+			_, ipan, _ := safeErr(func() error { idn, ierr = reference.IdentityOf(&dtpb.Reference{Reference: &dtpb.Reference_Uri{Uri: fhir.String(u)}}); return nil })
+			c.Law(!ipan, "C19/parse-panics", "rejected strings produce an error, never a crash", fmt.Sprintf("IdentityOf(uri %q)", u), "panic")
+			if !ipan {
+				var lid *resource.Identity
+				if err == nil {
+					if x, ok := l.Identity(); ok {
+						lid = x
+					}
+				}
+				got, want := "none", "none"
+				if ierr == nil && idn != nil {
+					v, _ := idn.VersionID()
+					got = string(idn.Type()) + "/" + idn.ID() + "/" + v
+				}
+				if lid != nil {
+					v, _ := lid.VersionID()
+					want = string(lid.Type()) + "/" + lid.ID() + "/" + v
+				}
+				c.Law(got == want, "C19/identity-literal-agree", "the identity of an untyped reference is the identity its literal parse finds (rejected strings have none)", fmt.Sprintf("%q", u), got+" vs literal "+want)
+			}
+		}
 		if pan || err != nil {
 			continue
 		}
@@ -189,6 +215,27 @@ func runC19(c *Ctx) {
 			}
 			c.Law(okk, "C19/fhirpath-reference", "the FHIRPath `reference` element reads back the same string", s, canonOutcome(o, nil))
 		}
+	}
+	// fragment references, the bare '#' included: the strong form and the URI form carry the same information and
+	// read back through FHIRPath as the same string
+	for _, fid := range []string{"", "c1", "a-1.b", mkID(64), "x"} {
+		strong := &dtpb.Reference{Reference: &dtpb.Reference_Fragment{Fragment: fhir.String(fid)}}
+		weak := &dtpb.Reference{Reference: &dtpb.Reference_Uri{Uri: fhir.String("#" + fid)}}
+		ls, e1 := reference.LiteralInfoOf(strong)
+		lw, e2 := reference.LiteralInfoOf(weak)
+		c.Law((e1 == nil) == (e2 == nil) && (e1 != nil || litOut(ls, nil, false) == litOut(lw, nil, false)), "C19/strong-weak-info", "a typed reference and the untyped URI reference naming the same resource parse to equal information", "#"+fid, fmt.Sprint(e1, e2))
+		var outs []string
+		for _, r := range []*dtpb.Reference{strong, weak} {
+			o := compileEval("%r.reference", []fhir.Resource{mustResource(`{"resourceType":"Patient","id":"p"}`)}, envVar("r", r))
+			outs = append(outs, canonOutcome(o, nil))
+			okk := o.Err == nil && len(o.Coll) == 1
+			if okk {
+				str, _ := o.Coll[0].(*dtpb.String)
+				okk = str.GetValue() == "#"+fid
+			}
+			c.Law(okk, "C19/fhirpath-reference", "the FHIRPath `reference` element reads back the same string", "#"+fid, canonOutcome(o, nil))
+		}
+		c.Observe("fragment #"+fid, true)
 	}
 	// reference identity comparison: an equivalence on a pool
 	var pool []*dtpb.Reference
